@@ -877,7 +877,8 @@ def run_one(seed, tier, opts, prop):
     seen.add(v['oracle'])
     case = cases[v['op_index']]
     mini, evals = (minimise(case, v['oracle'])
-                   if len(out_v) < MAX_MINIMISED_PER_RUN else (case, 0))
+                   if len(out_v) < (1 if kernel.violation_flag_set() else MAX_MINIMISED_PER_RUN)
+                   else (case, 0))
     mlog, mv = execute([mini])
     mv = [x for x in mv if x['oracle'] == v['oracle']] or [v]
     rep = {'version': 1, 'property': PROP, 'engine': 'K', 'run_seed': seed,
